@@ -220,3 +220,47 @@ def z_window_shares_images(vec32, cutoff):
     dz = int(F(c / vsz)) + 1
     dy = int(F(c / vsy)) + 1
     return bool(2 * dz + 1 > nz and v[2, 1] != 0 and ny > 2 * min(ny // 2, dy) + 2)
+
+
+# ---------------------------------------------------------------------------------------------------------------
+# No cell: anisotropic voxel regimes.  Without a cell the code uses n = round(extent/cutoff) voxels of size
+# extent/n along y and z, i.e. voxel/cutoff = r/round(r): > 1 for frac(r) < 0.5 (one layer of look-around suffices),
+# < 1 for frac(r) >= 0.5 (two layers needed) - independently per axis.
+
+ANISO_F = (0.2, 0.7)
+ANISO_S = (0.8, 0.9, 0.99, 1.01)          # pair separation / cutoff (the last one is a clearly-outside control)
+
+
+def aniso_configs(quick):
+    """(m, f) with extent_k = (m_k + f_k) * cutoff: every m in {1..3}^3 (thorough {1..4}^3) x every f in {0.2, 0.7}^3, so
+    that all four (eight) combinations of the two regimes occur for every pair (triple) of axes and voxel counts."""
+    ms = list(itertools.product((1, 2, 3) if quick else (1, 2, 3, 4), repeat=3))
+    return [(m, f) for m in ms for f in itertools.product(ANISO_F, repeat=3)]
+
+
+def aniso_points(cfg, cutoff, phase):
+    """Two corner atoms pinning the extent, then for every axis, every voxel boundary k of that axis and every separation
+    s a pair (A just below the boundary, B = A + s*cutoff along the axis, tiny lateral offsets): for voxel < cutoff the
+    pair at s = 0.99 straddles one complete voxel.  phase 1 lists B before A (the higher index does the searching)."""
+    m, f = cfg
+    c = float(cutoff)
+    E = np.array([(mk + fk) * c for mk, fk in zip(m, f)])
+    nv = [max(1, int(np.floor(E[k] / c + 0.5))) for k in range(3)]
+    pts = [np.zeros(3), E.copy()]
+    q = 0
+    for ax in range(3):
+        vs = E[ax] / nv[ax]
+        for k in range(1, nv[ax] + 1):
+            for s in ANISO_S:
+                a0 = k * vs - 0.01 * c
+                if a0 + s * c > E[ax]:
+                    continue
+                q += 1
+                lat = np.array([grids.halton(q, 2), grids.halton(q, 3), grids.halton(q, 5)]) * (E - 0.1 * c) + 0.02 * c
+                A = lat.copy()
+                A[ax] = a0
+                B = A + 0.02 * c * np.array([grids.halton(q, 7) - 0.5, grids.halton(q, 11) - 0.5, grids.halton(q, 13) - 0.5])
+                B[ax] = a0 + s * c
+                B = np.clip(B, 0, E)
+                pts += [B, A] if phase else [A, B]
+    return np.array(pts)
